@@ -260,6 +260,50 @@ def e2e_q10c(shard, args):
         shutil.rmtree(base, ignore_errors=True)
 
 
+def validate_shell_reader():
+    """Stub validation: (1) the scripts of the three backends pass `bash -n`; (2) the reference shell word
+    reader agrees with real bash on the cd line of every directory name of the catalogue (1-2 characters)."""
+    import subprocess
+    names = []
+    for a in ALPHA:
+        names.append(a)
+        for b in ALPHA:
+            names.append(a + b)
+    lines, kept = [], []
+    for be in BES:
+        t = Target(name="T", inputs=[], outputs=[], options={}, working_dir=ROOT, spec="echo 'a b' \"$HOME\"\nfalse\necho not reached")
+        t.options = {"cores": 1, "memory": "1g", "queue": "normal"} if be == "lsf" else {"cores": 1, "memory": "1g"}
+        script = _ops(be).compile_script(t)
+        p = subprocess.run(["bash", "-n"], input=script, capture_output=True, text=True)
+        if p.returncode != 0:
+            return "bash -n rejects the %s script: %s" % (be, p.stderr[:200])
+    for nm in names:
+        wd = "/data/" + nm
+        try:
+            t = Target(name="T", inputs=[], outputs=[], options={"cores": 1, "memory": "1g"}, working_dir=wd, spec="true")
+        except Exception:
+            continue
+        script = _ops("slurm").compile_script(t)
+        cd = [ln for ln in script.split("\n") if ln.startswith("cd ")][0]
+        try:
+            words = shell.shell_words(cd)
+        except shell.NotLiteral as exc:
+            return "reference reader refuses gwf's own cd line %r: %s" % (cd, exc)
+        kept.append((wd, words))
+        lines.append("f " + cd[3:])
+    prog = "f() { printf '%s\\0' \"$#\" \"$1\"; }\n" + "\n".join(lines) + "\n"
+    p = subprocess.run(["bash", "-c", prog], capture_output=True)
+    if p.returncode != 0:
+        return "bash failed on the cd lines: %s" % p.stderr[:200]
+    parts = p.stdout.decode("utf-8").split("\0")[:-1]
+    if len(parts) != 2 * len(kept):
+        return "bash produced %d fields for %d cd lines" % (len(parts), len(kept))
+    for i, (wd, words) in enumerate(kept):
+        if parts[2 * i] != "1" or parts[2 * i + 1] != wd or words != ["cd", wd]:
+            return "directory %r: bash reads %s word(s) %r, the reference reader %r" % (wd, parts[2 * i], parts[2 * i + 1], words)
+    return ""
+
+
 # ---------------------------------------------------------------- Q10d log paths = what `gwf logs` opens
 def _q10d(mode, err):
     be = q.SHARD["be"]
@@ -363,6 +407,8 @@ def q10e(present: int, tset: int, setting: bool, dry: bool) -> str:
 
 
 QUERIES = [
+    {"name": "V10-shell", "fn": validate_shell_reader, "concrete": True, "shards": [{}], "timeout": 120,
+     "bound": "stub validation (concrete, real bash): `bash -n` on the scripts of the three backends; reference shell word reader == real bash on the cd line of every accepted directory name of 1-2 catalogue characters"},
     {"name": "Q10a", "fn": q10a,
      "shards": {"quick": [{"be": b, "opt": o, "mode": m} for b in BES for o, m in (("cores", "template"), ("queue", "template"), ("memory", "target"))],
                 "thorough": [{"be": b, "opt": o, "mode": m} for b in BES for o in ("cores", "queue", "memory") for m in ("target", "template")]
